@@ -241,6 +241,30 @@ func (o *oracleState) c04(st *seqStep) {
 			o.fail("destroy", st, fmt.Sprintf("fid %d invalidated, FidDestroy called %d times before the reply", k, seen[k]))
 		}
 	}
+	// a fid the implementation was shown by a request that did not make it valid is reported destroyed too,
+	// once, before the reply
+	for _, cl := range st.calls {
+		p := strings.Split(cl, ":")
+		if len(p) < 5 {
+			continue
+		}
+		nf := ""
+		switch p[0] {
+		case "attach", "authCheck", "authInit":
+			nf = p[1]
+		case "walk":
+			if p[4] != p[1] {
+				nf = p[4]
+			}
+		}
+		if nf == "" || nf == "-" {
+			continue
+		}
+		k := u32(nf)
+		if _, still := o.valid[k]; !still && !was[k] && seen[k] != 1 {
+			o.fail("destroy", st, fmt.Sprintf("fid %d was shown to the implementation (%s) by a request that did not make it valid, FidDestroy called %d times before the reply", k, cl, seen[k]))
+		}
+	}
 }
 
 // ---- C05: protocol rules are enforced before the implementation is called ----
